@@ -1,9 +1,9 @@
 package main
 
 import (
-	"regexp"
 	"bytes"
 	"fmt"
+	"regexp"
 	"sort"
 	"strings"
 
